@@ -81,4 +81,9 @@ TEXT = {
         "level": "Generated search over sequences of up to 40 exchanges with runs of up to 10 consecutive losses (every pool level 8..1, exhaustion and re-keying). Exploration.",
         "note": "Cookies are exactly this project's (sealed by ServerCookie.EncryptWithNonce under the provider shared with the listener). Key rotation between exchanges is covered by C12. Found and repaired P2 (a656d56) and P3 (43dc11b).",
     },
+    "C05": {
+        "technique": "property-based testing (rapid) with a fault-injecting server model: scripts of 1..3 mutated/forged replies (header field mutations, NTS extension-field and key mutations, wrong source) delivered to the real IPClient after a real key exchange; oracle = the statement's acceptance predicate evaluated independently on every datagram sent (own NTS walker + miscreant) and offset attribution via per-datagram clock offsets >= 2 s apart",
+        "level": "Generated search over (auth mode, interleaved mode, warm-up, mutation kind, field, source, position) - 500 scripted exchanges quick, tens of thousands thorough. Exploration.",
+        "note": "IP transport (SCION source/destination and SPAO checks belong to C13). Datagrams from another port of the queried address are not judged. An acceptable datagram hidden behind junk may legitimately be skipped (only soundness of acceptance and completeness for a lone genuine reply are asserted).",
+    },
 }
